@@ -177,8 +177,8 @@ func c01States() []c01State {
 		mk("rich/fwd/+1h", rich, nested, mac, true, time.Hour, false),
 		mk("one/fwd/nomac", one, nil, "", true, 30*time.Minute, false),
 		mk("empty/fwd", nil, nil, mac, true, 0, false),
-		mk("source-fails", rich, nested, mac, true, 0, true),
 		mk("rich-reversed/fwd/+3h", rev(rich), nestedRev, mac, true, 3*time.Hour, false),
+		mk("source-fails", rich, nested, mac, true, 0, true),
 		mk("rich/nofwd/+90m/nomac", rich, nested, "", false, 90*time.Minute, false),
 	}
 }
@@ -475,7 +475,7 @@ func TestVerifC01(t *testing.T) {
 	}
 
 	dims := c01Dims()
-	nstates := 6
+	nstates := 7
 	if r.Thorough() {
 		nstates = len(states)
 	}
